@@ -87,9 +87,17 @@ impl<F: Read + Write + Seek> Replayer<F> {
                         }
                         Step::HFill { eighths, .. } => {
                             let l = s.fill_buf()?.len();
-                            let k = l * (*eighths as usize).min(8) / 8;
-                            s.consume(k);
-                            format!("fill {l}")
+                            if *eighths == 255 {
+                                // exact-count use of BufRead: one byte if there is one
+                                let k = l.min(1);
+                                let b = if k == 1 { s.fill_buf()?[0] } else { 0 };
+                                s.consume(k);
+                                format!("fill+consume {k} {b:02x}")
+                            } else {
+                                let k = l * (*eighths as usize).min(8) / 8;
+                                s.consume(k);
+                                format!("fill {l}")
+                            }
                         }
                         Step::HWrite { len, .. } | Step::HWriteAll { len, .. } | Step::HWriteTag { len, .. } => {
                             let j = if let Step::HWriteTag { tag, .. } = other {
@@ -188,9 +196,17 @@ fn dump_hash<F: Read + Seek>(cf: &mut CompoundFile<F>) -> Result<u64, String> {
 }
 
 fn replay_mon(name: &str, steps: &[Step], version: Version, bufsize: Option<usize>, perturb: Option<Perturb>, rep: &mut Report) -> Result<RunResult, String> {
-    let (file, shared) = MonFile::new(Vec::new());
+    replay_mon_from(name, steps, version, bufsize, perturb, rep, None)
+}
+
+/// `start`: replay on an existing image (opened permissively) instead of a fresh file.
+fn replay_mon_from(name: &str, steps: &[Step], version: Version, bufsize: Option<usize>, perturb: Option<Perturb>, rep: &mut Report, start: Option<&[u8]>) -> Result<RunResult, String> {
+    let (file, shared) = MonFile::new(start.map(|b| b.to_vec()).unwrap_or_default());
     shared.set_perturb(perturb);
-    let cf = make_cf(file, version, bufsize).map_err(|e| format!("{name}: create failed: {e}"))?;
+    let cf = match start {
+        Some(_) => engine::open_with(file, engine::Mode::Permissive, bufsize).map_err(|e| format!("{name}: open of the start image failed: {e}"))?,
+        None => make_cf(file, version, bufsize).map_err(|e| format!("{name}: create failed: {e}"))?,
+    };
     let mut r = Replayer::new(cf);
     let trace: Vec<String> = steps.iter().map(|s| r.step(s)).collect();
     r.close_all();
@@ -311,9 +327,16 @@ fn replay_file(name: &str, steps: &[Step], version: Version, dir: &str, via_path
 
 /// Generation pass: a model-checked history with exact-count calls only, no reopen, no
 /// touch, and storage times pinned right after each creation.
-fn generate(rng: &mut Rng, version: Version, quick: bool, rep: &mut Report) -> Result<Vec<Step>, Fail> {
-    let mut sess = Session::create(version, None).map_err(|e| ("create | ok | err".to_string(), format!("{e}")))?;
+fn generate(rng: &mut Rng, version: Version, quick: bool, rep: &mut Report, start: Option<Session>) -> Result<Vec<Step>, Fail> {
+    let foreign = start.is_some();
+    let mut sess = match start {
+        Some(s) => s,
+        None => Session::create(version, None).map_err(|e| ("create | ok | err".to_string(), format!("{e}")))?,
+    };
     let mut cfg = GenCfg::default();
+    if foreign {
+        cfg.names = crate::synth::SYNTH_NAMES;
+    }
     cfg.reopen_pct = 0;
     cfg.refusal_pct = 12;
     cfg.max_size = *rng.pick(&[2000, 9000, 70000]);
@@ -340,6 +363,9 @@ fn generate(rng: &mut Rng, version: Version, quick: bool, rep: &mut Report) -> R
                 let slot = *rng.pick(&open);
                 if rng.chance(1, 12) {
                     vec![Step::HClose { slot }]
+                } else if rng.chance(1, 10) {
+                    // BufRead used with an exact count: fill_buf, take one byte
+                    vec![Step::HFill { slot, eighths: 255 }]
                 } else {
                     vec![handle_step(rng, &sess, slot, &hcfg)]
                 }
@@ -404,11 +430,25 @@ pub fn run_c18(ctx: &Ctx, rep: &mut Report) {
         let version = if big || rng.chance(1, 2) { Version::V3 } else { Version::V4 };
         let other_version = if version == Version::V3 { Version::V4 } else { Version::V3 };
         let quick = ctx.quick();
+        // one history in eight starts from another writer's file (red-black sibling trees
+        // with red nodes, fragmented chains ...): removals there recolour nodes, which a
+        // fresh file never does
+        let mut start_image: Option<Vec<u8>> = None;
+        let mut version = version;
+        let mut start_sess = None;
+        if !big && rng.chance(1, 8) {
+            if let Some((s, v)) = crate::props::hist::foreign_start(&mut rng) {
+                start_image = Some(s.shared.bytes());
+                version = v;
+                start_sess = Some(s);
+                rep.count("histories_on_a_foreign_start_image");
+            }
+        }
         let gen_res = if big {
             rep.count("histories_with_difat_chain");
             Ok(Ok(big_steps(ctx.shard)))
         } else {
-            guard::catch(|| generate(&mut rng, version, quick, rep))
+            guard::catch(|| generate(&mut rng, version, quick, rep, start_sess))
         };
         let steps = match gen_res {
             Ok(Ok(s)) => s,
@@ -429,15 +469,22 @@ pub fn run_c18(ctx: &Ctx, rep: &mut Report) {
         let res = guard::catch(|| -> Result<(), Fail> {
             let mut runs: Vec<RunResult> = Vec::new();
             let e = |s: String| ("configuration failed".to_string(), s);
-            runs.push(replay_mon("A:memory", &steps, version, None, None, rep).map_err(e)?);
-            runs.push(replay_mon("A':memory again", &steps, version, None, None, rep).map_err(e)?);
-            runs.push(replay_mon("C:short+interrupted I/O", &steps, version, None, Some(Perturb { rng: Rng::new(pseed), short_pct: 35, intr_pct: 10 }), rep).map_err(e)?);
-            if with_file {
+            let st = start_image.as_deref();
+            runs.push(replay_mon_from("A:memory", &steps, version, None, None, rep, st).map_err(e)?);
+            runs.push(replay_mon_from("A':memory again", &steps, version, None, None, rep, st).map_err(e)?);
+            runs.push(replay_mon_from("C:short+interrupted I/O", &steps, version, None, Some(Perturb { rng: Rng::new(pseed), short_pct: 35, intr_pct: 10 }), rep, st).map_err(e)?);
+            if st.is_some() {
+                // a second perturbation stream with more interruptions
+                runs.push(replay_mon_from("C2:mostly interrupted I/O", &steps, version, None, Some(Perturb { rng: Rng::new(pseed ^ 0x55), short_pct: 10, intr_pct: 45 }), rep, st).map_err(e)?);
+            }
+            if with_file && st.is_none() {
                 runs.push(replay_file("B-file", &steps, version, &dir, rng.chance(1, 2), rep).map_err(e)?);
             }
             let byte_group = runs.len();
-            runs.push(replay_mon("D:other max_buffer_size", &steps, version, other_buf, None, rep).map_err(e)?);
-            runs.push(replay_mon("E:other version", &steps, other_version, None, None, rep).map_err(e)?);
+            runs.push(replay_mon_from("D:other max_buffer_size", &steps, version, other_buf, None, rep, st).map_err(e)?);
+            if st.is_none() {
+                runs.push(replay_mon("E:other version", &steps, other_version, None, None, rep).map_err(e)?);
+            }
             let a = &runs[0];
             for r in &runs[1..] {
                 if r.trace != a.trace {
